@@ -261,6 +261,33 @@ def shapeOkF : Nat → Ty → Ty → Bool
 
 def shapeOk (a b : Ty) : Bool := shapeOkF (sumFuel a b) a b
 
+/-! ### Well-formed types
+
+`wf t`: hereditarily, every union has plain alternatives (no nested union, no `Any`) with pairwise different
+`TypeID`s, and every struct has strictly sorted field names (one type per name).  This is the shape of every
+type that `TypeSum` builds from the type constants (`sum_wf`); the union laws that are false for arbitrary
+`Type` literals (e.g. `Union[List Int, List Str]`) are stated for well-formed types. -/
+
+def altsPlain : List Ty → Bool
+  | [] => true
+  | a :: as => !a.isUnion && !a.isAny && altsPlain as
+
+def distinctIds : List Ty → Bool
+  | [] => true
+  | a :: as => as.all (fun b => a.id != b.id) && distinctIds as
+
+mutual
+def wf : Ty → Bool
+  | .list e => wf e
+  | .struct ns ts => strictSortedNames ns && ns.length == ts.length && wfList ts
+  | .tuple ts => wfList ts
+  | .union alts => altsPlain alts && distinctIds alts && wfList alts
+  | .null | .int | .float | .bool | .str | .time | .dur | .listNil | .any => true
+def wfList : List Ty → Bool
+  | [] => true
+  | t :: ts => wf t && wfList ts
+end
+
 /-! ### possiblePrimitiveTypes, TypeIntersection, NonNullable -/
 
 mutual
@@ -373,12 +400,7 @@ end
 
 /-- `ShapeCompatible` along the element chain of the List case of `Value.Type`:
     every `TypeSum(*element, next)` of the loop is shape compatible. -/
-def Ty.elemFoldOk : Ty → List Ty → Bool
-  | _, [] => true
-  | acc, t :: ts =>
-    Ty.shapeOk acc t && (match Ty.typeSum acc t with
-      | some acc' => Ty.elemFoldOk acc' ts
-      | none => false)
+def Ty.elemFoldOk (acc : Ty) (ts : List Ty) : Bool := Ty.foldOk Ty.typeSum Ty.shapeOk acc ts
 
 mutual
 /-- no `TypeSum` performed by `Value.Type` (one per list element, at any depth) merges structs with
